@@ -20,7 +20,7 @@ RULE = (
     "(Grid) every supported SciPy method x constraint set it accepts {none, linear rows that all touch a fixed variable, a "
     "linear row on a free variable, two non-linear constraints, both} x mask {none, one fixed, two fixed} x bounds: the "
     "fault-free run must return OPTIMIZER_STEP_FINISHED and 'every row fails at evaluation k' (each k) must return "
-    "TOO_FEW_REALIZATIONS right there, never an exception. (Main) E2 deviation-bounded fault enumeration over COMPLETE runs of both step kinds: at every evaluator call the harness asks "
+    "TOO_FEW_REALIZATIONS right there, never an exception; the same step run again with the same configuration dictionary whose max_functions was changed in place must obey the new budget. (Main) E2 deviation-bounded fault enumeration over COMPLETE runs of both step kinds: at every evaluator call the harness asks "
     "a chooser for the environment answer: no fault (default), ANY non-empty subset of the call's rows failing (NaN), or the "
     "evaluator raising ValueError. All executions with <=1 deviation (quick) / <=2 deviations for the small drivers "
     "(thorough) are run to completion. Drivers: scripted optimizer (4 call-backs: f, g, f+g, f at three points; "
@@ -569,6 +569,38 @@ def judge_grid(case: dict[str, Any]) -> Judgement:
             j.fail(f"grid:all-rows-failed-but-code-{code_k}", nan_at=k, case=case)
         elif n_k != k + 1:
             j.fail("grid:run-continued-after-too-few-evaluation", nan_at=k, evaluations=n_k, case=case)
+    # the SAME step run again with the SAME configuration dictionary after its budget was changed in place: the second
+    # run obeys the configuration it is given
+    if n_evals > 1:
+        state2 = {"function_evaluations": 0}
+
+        def evaluator2(variables: np.ndarray, context: Any) -> Any:
+            if context.perturbations is None or np.any(np.asarray(context.perturbations) < 0):
+                state2["function_evaluations"] += 1
+            n_rows = variables.shape[0]
+            objectives = np.array([[float((np.asarray(variables[i]) - target) @ (np.asarray(variables[i]) - target)) * (1 + 0.5 * int(context.realizations[i]))
+                                    + 0.125 * int(context.realizations[i])] for i in range(n_rows)])
+            constraints = None
+            if n_con:
+                constraints = np.array([[float(variables[i][0] + 2 * variables[i][2]) + int(context.realizations[i]),
+                                         float(variables[i][0] * variables[i][2]) - 0.5 * int(context.realizations[i])] for i in range(n_rows)])
+            return EvaluatorResult(objectives=objectives, constraints=constraints)
+
+        plan = Plan(OptimizerContext(evaluator=evaluator2))
+        step = plan.add_step("optimizer")
+        shared_config = grid_config(case)
+        try:
+            with warnings.catch_warnings():
+                warnings.simplefilter("ignore")
+                plan.run_step(step, config=shared_config)
+                state2["function_evaluations"] = 0
+                shared_config["optimizer"]["max_functions"] = 1
+                code2 = plan.run_step(step, config=shared_config).name
+            j.transitions += 2
+            if code2 != "MAX_FUNCTIONS_REACHED" or state2["function_evaluations"] > 1:
+                j.fail("grid:rerun-of-step-ignores-changed-configuration", code=code2, function_evaluations=state2["function_evaluations"], case=case)
+        except Exception as exc:  # noqa: BLE001
+            j.fail(f"grid:rerun-raised:{type(exc).__name__}", message=str(exc)[:160], case=case)
     j.outcome = f"grid:{label}:{case['conset']}:mask={case['mask'] is not None}"
     return j
 
